@@ -95,6 +95,12 @@ def canon(path):
         m = re.search(r"<impl ([^>]*(?:<[^>]*>)?[^>]*)>::([A-Za-z_0-9]+)(?:::<.*>)?$", path)
         if m:
             out.add("%s::%s" % (last_ident(m.group(1)), m.group(2)))
+        m = re.search(r"<impl (.+?) for (.+)>::([A-Za-z_0-9]+)(?:::<.*>)?$", path)
+        if m:
+            tr, st, meth = last_ident(m.group(1)), last_ident(m.group(2)), m.group(3)
+            out.add("%s::%s" % (tr, meth))
+            out.add("%s::%s" % (st, meth))
+            out.add("%s as %s::%s" % (st, tr, meth))
         if len(segs) >= 2:
             out.add("::".join(segs[-2:]))
         if segs:
